@@ -186,7 +186,7 @@ CLAIMED = {
           "The implicit character attribute (C13_character_prefix_partial, Proofs/MarkupCharacterProofs.v): a line `Name: rest` without markup "
           "and without edge blanks comes back unchanged with exactly one attribute 'character' at 0 covering the name, the colon and the blanks "
           "after it (in characters, multi-byte names included), property name = the name, and TextForAttribute returns exactly that prefix. "
-          "The whitespace-trimming rule for one self-closing marker between two plain texts (C13_self_closing_trims_one_blank, Proofs/MarkupTrimProofs.v): at the start or after a blank it swallows exactly one following blank, after any other character none (C13_self_closing_after_nonblank_keeps). Not proved: replacement markers, the whitespace-trimming rule inside the document round trip, the character prefix in marker documents with edge blanks (proved: C13_character_prefix_with_edge_blanks for lines without markers, C13_document_with_character_prefix and C13_document_with_properties_and_character_prefix for marker documents without edge blanks, C13_explicit_character_marker: an explicit marker of that name suppresses the implicit one) and trimmed "
+          "The whitespace-trimming rule for one self-closing marker between two plain texts (C13_self_closing_trims_one_blank, Proofs/MarkupTrimProofs.v): at the start or after a blank it swallows exactly one following blank, after any other character none (C13_self_closing_after_nonblank_keeps), with trimwhitespace=false none anywhere (C13_self_closing_trimwhitespace_false). Not proved: replacement markers, the whitespace-trimming rule inside the document round trip, the character prefix in marker documents with edge blanks (proved: C13_character_prefix_with_edge_blanks for lines without markers, C13_document_with_character_prefix and C13_document_with_properties_and_character_prefix for marker documents without edge blanks, C13_explicit_character_marker: an explicit marker of that name suppresses the implicit one) and trimmed "
           "edge blanks inside that round trip. Correspondence: documents from a grammar, "
           "model vs implementation, and for structured documents the implementation vs the meaning the generator knows "
           "by construction (independent oracle).",
